@@ -164,6 +164,10 @@ VocabOf(v) ==
     \* symbol-attribute directives against labels, module symbols, unknown names and uses
     [] v = "attr"  -> <<Op, Label("g"), Attr("g", 0), Attr("g", 1), Attr("g", 2), Attr("g", 3),
                         Attr("u", 0), Attr("u", 2), Attr("a", 2), Attr("b", 1), Jmp("u"), Jmp("g")>>
+    \* x86 operands: address-of forms against labels, module symbols and proxies, next to
+    \* transfers (rendered with and without a trailing immediate behind the PC-relative field)
+    [] v = "x86ops" -> <<Op, Label("x"), Lea("a", 4), Lea("x", 0), Lea("b", 0), Lea("x", 8), Quad("a", 4),
+                         Jmp("x"), Call("a"), Ret>>
     [] v = "mini"  -> <<Op, Jmp("x"), Label("x"), Byte(1), Ret>>
 Vocab == VocabOf(VocabName)
 
